@@ -332,7 +332,9 @@ func (r *remoteGrpcProxyCache) Contains(ctx context.Context, kind cache.EntryKin
 		// is to get the object and discard the result
 		// We don't expect this to ever be called anyways since it is not part of the grpc protocol
 		rc, size, err := r.Get(ctx, kind, hash, size)
-		_ = rc.Close()
+		if rc != nil {
+			_ = rc.Close()
+		}
 		if err != nil || size < 0 {
 			return false, -1
 		}
